@@ -11,6 +11,7 @@ TABLES = [("array", "validation::check_array_element"), ("list", "validation::ch
 
 
 def run(ctx, rep):
+    rep.exhaustive = True  # 68 element cells + dispatch cells: the finite space the property quantifies over is enumerated completely
     facts = ctx.mir
     sp = json.load(open(os.path.join(VERIF, "spec", "containers.json")))
     rep.rule("T1", "A3 tabulation of check_array_element / check_list_element / check_map_key / check_map_value over the 17 type categories vs spec/containers.json: "
